@@ -34,15 +34,24 @@ pub struct Isolated {
   pub lines: Vec<String>,
   /// indices of cases during which the child process died, with the wait status
   pub crashes: Vec<(usize, i32)>,
+  /// the run was abandoned after too many crashes
+  pub truncated: bool,
 }
 
 /// Run `f(i, out)` for i in 0..n inside forked children. A child that dies
 /// (signal, abort, exit != 0) is attributed to the case it announced in shared
 /// memory; the parent restarts after the last confirmed case, skipping known
 /// crashers. `f` appends whole lines to `out`.
-pub fn run_isolated<F: FnMut(usize, &mut Vec<u8>)>(n: usize, mut f: F) -> Isolated {
+pub fn run_isolated<F: FnMut(usize, &mut Vec<u8>)>(n: usize, f: F) -> Isolated {
+  run_isolated_max(n, 24, f)
+}
+
+/// As run_isolated, but gives up after `max_crashes` dead workers (`truncated` is set): a change
+/// that makes every case crash must not turn the check into an hours-long fork storm.
+pub fn run_isolated_max<F: FnMut(usize, &mut Vec<u8>)>(n: usize, max_crashes: usize, mut f: F) -> Isolated {
   let mut lines: Vec<String> = Vec::new();
   let mut crashes: Vec<(usize, i32)> = Vec::new();
+  let mut truncated = false;
   let progress = unsafe {
     libc::mmap(std::ptr::null_mut(), 4096, libc::PROT_READ | libc::PROT_WRITE,
       libc::MAP_SHARED | libc::MAP_ANONYMOUS, -1, 0) as *mut i64
@@ -115,12 +124,13 @@ pub fn run_isolated<F: FnMut(usize, &mut Vec<u8>)>(n: usize, mut f: F) -> Isolat
       break;
     }
     crashes.push((crashed as usize, status));
+    if crashes.len() >= max_crashes { truncated = true; break; }
     next = match last_done { Some(d) => d + 1, None => next };
     // the crasher itself is skipped by the child loop; make sure we advance past it
     if next == crashed as usize { next += 1; }
   }
   unsafe { libc::munmap(progress as *mut libc::c_void, 4096); }
-  Isolated { lines, crashes }
+  Isolated { lines, crashes, truncated }
 }
 
 pub fn describe_status(status: i32) -> String {
